@@ -524,6 +524,9 @@ func (w *W) opSwap(op, ins, variant string) error {
 	sigs, err := w.M.M.Swap(proofs, world.Msgs(outs))
 	w.note(op, err)
 	if err == nil {
+		if d := new(big.Int).Sub(inSum, outSum); d.Sign() > 0 && d.IsUint64() {
+			w.SwapLoss += d.Uint64() // what accepted swaps gave up (input fees)
+		}
 		if usedBefore {
 			w.viol("C01,C05", "swap-of-used-secret-accepted", "Swap(%s,%s) accepted although an input is %s in the model", ins, variant, "spent/pending")
 		}
